@@ -61,3 +61,28 @@ func testCertDER() []byte {
 	})
 	return certDER
 }
+
+// attestCertDER is another self-signed certificate: what the stub PIV tool prints for `attest` (the slot's attestation
+// certificate is not the slot's certificate).
+var (
+	attOnce sync.Once
+	attDER  []byte
+)
+
+func attestCertDER() []byte {
+	attOnce.Do(func() {
+		k := keys.EC(256, "attestcert")
+		tmpl := &x509.Certificate{
+			SerialNumber: big.NewInt(43),
+			Subject:      pkix.Name{CommonName: "verif slot attestation"},
+			NotBefore:    time.Date(1999, 1, 1, 0, 0, 0, 0, time.UTC),
+			NotAfter:     time.Date(2100, 1, 1, 0, 0, 0, 0, time.UTC),
+		}
+		der, err := x509.CreateCertificate(rand.Reader, tmpl, tmpl, k.Public(), k)
+		if err != nil {
+			panic(err)
+		}
+		attDER = der
+	})
+	return attDER
+}
